@@ -164,6 +164,8 @@ struct Acc {
     inconclusive: u64,
     different_error_kinds: u64,
     outcomes: BTreeMap<String, u64>,
+    /// per template: twin pairs in which both programs ran (value or run-time error)
+    per_template: BTreeMap<&'static str, u64>,
     violations: Vec<Violation>,
 }
 
@@ -179,6 +181,9 @@ impl Acc {
         self.different_error_kinds += o.different_error_kinds;
         for (k, v) in o.outcomes {
             *self.outcomes.entry(k).or_insert(0) += v;
+        }
+        for (k, v) in o.per_template {
+            *self.per_template.entry(k).or_insert(0) += v;
         }
         self.violations.extend(o.violations);
     }
@@ -302,6 +307,21 @@ const TEMPLATES: &[Template] = &[
     t("for-over-constants", "acc := mut 0; for e in [{0}, {1}]~ { acc += t(1, e) }; return (*acc, *log)", &["int", "int"]),
     t("reduce-constants", "r := [{0}, {1}]~ $ 0 (acc: int, e: int) -> int { return acc OP e }; return (r, *log)", &["int", "int"]),
     t("nested-arith", "return (({0} OP {1}) OP ({1} OP {0}), *log)", &["int", "int"]),
+    // the run-time type of a value built from a constant of a union-typed expression is
+    // observable (match / if-set on the value, assignment into a cell): folding must not narrow it
+    t("type-of-bound", "x := if {0} { 1 } else { 2.5 }; r := match x { q: int => 1, => 2, }; return (r, *log)", &["bool"]),
+    t("type-of-array", "x := if {0} { 1 } else { 2.5 }; a := [x, x]; r := match a { q: [int] => 1, q: [float] => 2, => 3, }; return (r, *log)", &["bool"]),
+    t("type-of-repeat", "x := if {0} { 1 } else { 2.5 }; a := [x; {1}]; r := match a { q: [int] => 1, q: [float] => 2, => 3, }; return (r, *log)", &["bool", "len"]),
+    t("type-of-tuple", "x := if {0} { 1 } else { 2.5 }; a := (x, true); r := match a { q: (int, bool) => 1, => 2, }; return (r, *log)", &["bool"]),
+    t("type-of-struct", "x := if {0} { 1 } else { 2.5 }; a := struct{ k := x }; r := match a { q: struct{k: int} => 1, => 2, }; return (r, *log)", &["bool"]),
+    t("type-of-cell", "x := if {0} { 1 } else { 2.5 }; m := mut x; r := match m { q: mut int => 1, q: mut float => 2, q: mut (int|float) => 3, => 4, }; return (r, *log)", &["bool"]),
+    t("type-of-cell-of-index", "m := mut [1, 2.5][{0}]; r := match m { q: mut int => 1, q: mut float => 2, q: mut (int|float) => 3, => 4, }; return (r, *log)", &["idx"]),
+    t("type-of-cell-of-array", "x := if {0} { [1] } else { [2.5] }; m := mut x; r := if q: mut ([int]|[float]) = m { 1 } else { 2 }; return (r, *log)", &["bool"]),
+    t("cell-takes-other-member", "x := if {0} { 1 } else { 2.5 }; m := mut x; m = 2.5; m = 3; return (*m, *log)", &["bool"]),
+    t("type-of-closure", "x := if {0} { 1 } else { 2.5 }; g := () -> int|float { return x }; r := match g { q: () -> int => 1, => 2, }; return (r, g(), *log)", &["bool"]),
+    t("type-of-iterator", "x := if {0} { [1] } else { [2.5] }; it := x~; r := match it { q: () -> (bool, int) => 1, q: () -> (bool, float) => 2, => 3, }; return (r, it(), it(), *log)", &["bool"]),
+    t("type-of-slice", "a := [{0}, 2.5][{1}:]; r := match a { q: [int] => 1, q: [float] => 2, q: [int|float] => 3, => 4, }; return (r, *log)", &["int", "idx"]),
+    t("type-filter-of-constants", "r := [{0}, 2.5, true]~ ? int; return (r $], *log)", &["int"]),
     Template {
         name: "uncalled-function",
         body: "g := () -> any { return {0} OP {1} }; return (1, *log)",
@@ -478,6 +498,9 @@ pub fn run(tier: &str) -> i32 {
                 let lo = run_program(interp, &ltext, largs);
                 let label = format!("template={}|op={}|mask={mask:b}", tpl.name, job.op);
                 let all_ints: Vec<i64> = job.vals.iter().enumerate().filter(|(i, _)| mask & (1 << i) != 0).filter_map(|(_, v)| if let Variable::Int(i) = v.1 { Some(i) } else { None }).collect();
+                if matches!((&lo, &ho), (Out::Value(_) | Out::ExecError(_), Out::Value(_) | Out::ExecError(_))) {
+                    *acc.per_template.entry(tpl.name).or_insert(0) += 1;
+                }
                 let lit_kind = |k: &str| tpl.holes.iter().enumerate().any(|(i, h)| *h == k && mask & (1 << i) != 0);
                 acc.compare(&label, &ltext, &lo, &htext, &ho, &hdesc, |kind| {
                     {
@@ -515,7 +538,13 @@ pub fn run(tier: &str) -> i32 {
     samples.push(|| json!({"template": TEMPLATES[2].body, "op": "/", "holes": ["(0 - 1)", "0"]}));
 
     let comparable_share = acc.comparable as f64 / (acc.pairs.max(1) as f64);
-    let Acc { pairs, comparable, both_value, both_error, parse_time_failures_justified, not_comparable, inconclusive, different_error_kinds, outcomes, violations } = acc;
+    let Acc { pairs, comparable, both_value, both_error, parse_time_failures_justified, not_comparable, inconclusive, different_error_kinds, outcomes, per_template, violations } = acc;
+    // a template whose twins never both run compares nothing: that is a defect of the harness
+    let vacuous: Vec<&str> = TEMPLATES.iter().map(|t| t.name).filter(|n| per_template.get(n).copied().unwrap_or(0) == 0).collect();
+    if !vacuous.is_empty() {
+        eprintln!("MACHINERY ERROR: C04 templates without a single twin pair that ran on both sides: {vacuous:?}");
+        return 2;
+    }
     report.violations(violations);
     let coverage = json!({
         "states": pairs,
@@ -537,7 +566,8 @@ pub fn run(tier: &str) -> i32 {
         "samples": samples.items,
         "exhaustive": true,
         "rule": "a state is a (program with literals, constant-hidden twin) pair; both are executed on the real interpreter through the host API and their (value, effect log, error kind) compared",
-        "bounds": "every expression construct x every tuple of first-order palette literals x all 3^k literal/hidden/hidden+logging masks; 33 propagation templates x 13 operators x boundary ints x all 2^k masks",
+        "pairs_run_on_both_sides_per_template": per_template,
+        "bounds": format!("every expression construct x every tuple of first-order palette literals x all 3^k literal/hidden/hidden+logging masks; {} propagation templates x {} operators x boundary ints x all 2^k masks", TEMPLATES.len(), T_OPS.len()),
     });
     let code = report.finish(
         "model_checking",
